@@ -3,6 +3,8 @@ from .. import facts, q
 from ..engine import Engine, Inconclusive, C, fmt, subterms
 from ..common import site
 from .ops import strip_casts
+from . import owners
+from .c04 import check_find, finder_functions
 
 SB = "rlbox::rlbox_sandbox"
 THIS_OBJ = ("deref", ("this",))
@@ -83,6 +85,7 @@ def run(rep, tier):
             else:
                 rep.violation("R-C14-writers", fn_name + " [status write]", "%s writes the sandbox status word (%s); only create_sandbox/destroy_sandbox may" % (fn_name, callee), loc, label)
         vals = {}
+        finders = finder_functions(db)  # the address-to-sandbox lookup, identified by its use (handed to the backend's context-free translations)
         for f in db.functions:
             if f["dep"] or "body" not in f:
                 continue
@@ -92,8 +95,7 @@ def run(rep, tier):
                     check_create(rep, db, f, inst, vals); cnt("create")
                 elif f["n"] == SB + "::destroy_sandbox":
                     check_destroy(rep, db, f, inst, vals); cnt("destroy")
-                elif f["n"] == SB + "::find_sandbox_from_example":
-                    from .c04 import check_find
+                elif f["id"] in finders:
                     check_find(rep, db, f, inst, rule="R-C14-registry"); cnt("find")
             except Inconclusive as ex:
                 rep.inconclusive("R-C14", site(f), str(ex), inst)
@@ -129,8 +131,9 @@ def run(rep, tier):
         for f in db.functions:
             if f["dep"] or "body" not in f:
                 continue
-            if refs_member(f["body"], "sandbox_list") and f["n"] not in (SB + "::create_sandbox", SB + "::destroy_sandbox", SB + "::find_sandbox_from_example"):
-                rep.violation("R-C14-registry", f["n"] + " [list access]", "%s touches the live-sandbox list" % f["n"], f["loc"], label)
+            if refs_member(f["body"], "sandbox_list") and f["n"] not in (SB + "::create_sandbox", SB + "::destroy_sandbox") and f["id"] not in finders \
+                    and not owners.reached_only_from(db, f["n"], {SB + "::create_sandbox", SB + "::destroy_sandbox"} | {g["n"] for g in finders.values()}):
+                rep.violation("R-C14-registry", f["n"] + " [list access]", "%s touches the live-sandbox list (only create_sandbox, destroy_sandbox and the address-to-sandbox lookup may)" % f["n"], f["loc"], label)
     floors = {"writers": 8, "create": 3, "destroy": 3, "guard": 30, "find": 3}
     for k, v in floors.items():
         rep.require(n.get(k, 0) >= v, "only %d instances for rule group '%s' (floor %d)" % (n.get(k, 0), k, v))
